@@ -84,6 +84,39 @@ func init() {
 		timerHandles[p] = &timerHandle{t: t}
 		return p
 	}
+	intrinsics["time.NewTicker"] = func(fr *frame, a []value) value {
+		d := int64(asInt64(a[0]))
+		if d <= 0 {
+			panic(targetPanic{iface{tString, "non-positive interval for NewTicker"}})
+		}
+		s := theSched
+		c := newChannel(1, nil)
+		T := namedType(fr.i.prog, "time", "Ticker")
+		cell := zero(T)
+		st := cell.(structure)
+		st[0] = c // field C
+		p := new(value)
+		*p = st
+		h := &timerHandle{c: c}
+		var arm func()
+		arm = func() {
+			h.t = s.addTimer(d, func() {
+				if len(c.buf) < c.capacity || hasLive(c.recvq) {
+					trySend(c, timeValue(s.now))
+				}
+				arm()
+			})
+		}
+		arm()
+		timerHandles[p] = h
+		return p
+	}
+	intrinsics["(*time.Ticker).Stop"] = func(fr *frame, a []value) value {
+		if h := timerHandles[a[0].(*value)]; h != nil && h.t != nil {
+			h.t.active = false
+		}
+		return nil
+	}
 	intrinsics["(*time.Timer).Stop"] = func(fr *frame, a []value) value {
 		h := timerHandles[a[0].(*value)]
 		if h == nil {
